@@ -275,6 +275,25 @@ func ruleC01NotOutermost(c *Ctx) {
 			if arg == nil {
 				continue
 			}
+			// the hoist in a helper that is handed the typed comparison: what its callers hand it
+			if prm, isPrm := arg.(*ssa.Parameter); isPrm && prm.Parent() == fn {
+				idx := -1
+				for i, q := range fn.Params {
+					if q == prm {
+						idx = i
+					}
+				}
+				for _, caller := range c.prodFuncs("ast") {
+					for _, cs := range callsIn(caller) {
+						if cs.Common().StaticCallee() != fn || idx < 0 || idx >= len(cs.Common().Args) {
+							continue
+						}
+						n++
+						c.Analysed(FnName(caller))
+						c.Check(!hasNot(cs.Common().Args[idx], 0), "C01.NOTOUTER", FnName(caller)+": MoveUpTree argument (through "+fn.Name()+")", p.Pos(cs.Pos()), "the set function is hoisted over the plain typed comparison; a negation stays above the set function", "a negated comparison is handed to MoveUpTree: the NOT ends up inside the set function (anyOf(s) not in [...] would mean 'some element is not in the list')")
+					}
+				}
+			}
 			n++
 			c.Analysed(FnName(fn))
 			c.Check(!hasNot(arg, 0), "C01.NOTOUTER", FnName(fn)+": MoveUpTree argument", p.Pos(call.Pos()), "the set function is hoisted over the plain typed comparison; a negation stays above the set function", "a negated comparison is handed to MoveUpTree: the NOT ends up inside the set function (anyOf(s) not in [...] would mean 'some element is not in the list')")
